@@ -56,8 +56,10 @@ def seeds():
         what = re.sub(r'^#+ *', '', m['what_it_breaks_and_needs'])
         what = re.sub(r'^patch\d+ *(\(bonus\))? *-+ *', '', what)
         what = re.split(r'\*\*|## |Mechanism changed|Mechanism:', what)[0][:140]
-        rows.append('| %s | %s | %s | %s | %s |' % (name, ', '.join(os.path.basename(f) for f in files), esc(what), fmt(first),
-                                                   fmt(after) if not caught_first else '-'))
+        aft = fmt(after) if not caught_first else '-'
+        if m.get('status') == 'superseded':
+            aft += ' (superseded by a later repo fix, see meta.json)'
+        rows.append('| %s | %s | %s | %s | %s |' % (name, ', '.join(os.path.basename(f) for f in files), esc(what), fmt(first), aft))
     head = ['%d seeded changes are kept under `seeded/`; %d were caught by the quick tier of their own check as it stood when the '
             'change came in, %d after the check was strengthened (alphabet or oracle widened -- never special-cased to the patch), '
             '%d are not caught.' % (stats['n'], stats['first'], stats['after'], stats['missed']), '',
